@@ -213,7 +213,7 @@ impl G<'_> {
                     }
                     E::Try(Box::new(o))
                 }
-                77..=90 if !self.frag => {
+                77..=90 => {
                     let r = self.expr(T::R, d1);
                     E::Field(Box::new(r), self.p.below(2) as usize)
                 }
@@ -418,7 +418,7 @@ impl G<'_> {
             }
             match self.p.below(100) {
                 0..=34 => {
-                    let ty = if self.frag { *self.p.pick(&[T::I, T::I, T::B, T::O]) } else { *self.p.pick(&LET_TYS) };
+                    let ty = if self.frag { *self.p.pick(&[T::I, T::I, T::B, T::O, T::R]) } else { *self.p.pick(&LET_TYS) };
                     let e = self.expr(ty, d);
                     let x = self.fresh(ty, true);
                     stmts.push(S::Let(x, e));
